@@ -381,11 +381,13 @@ fn calib(kind: u64, d: &Data, h: &Hp, f: &FitOut, converged: bool, stream: &str,
     (worst_tol, worst_floor)
 }
 
-/// input class of the "coefficient band" finding (decided from the input alone, in binary64): from the start
+/// input class of the "coefficient band" finding F52 (repaired in /repo 8010f90; the tag and the `tiny_target`
+/// stream stay as a regression stream: the oracle must accept these cases and the bit-exact replay must match).
+/// Decided from the input alone, in binary64: from the start
 /// w = 0, r = y - intercept every non-skipped feature's coordinate minimiser (multi-task: the norm of its row)
-/// is at most EPSILON and at least one is non-zero.  Then `abs_diff_ne!(w_j, 0)` is false for every value the
-/// solver ever stores, the residual stays y for the whole run, and each coefficient is the minimiser of its
-/// own one-feature problem (wrong on correlated features).
+/// is at most EPSILON and at least one is non-zero.  Before the repair `abs_diff_ne!(w_j, 0)` was false for every
+/// value the solver ever stored, the residual stayed y for the whole run, and each coefficient was the minimiser
+/// of its own one-feature problem (wrong on correlated features).
 fn band_start(kind: u64, d: &Data, h: &Hp) -> bool {
     let (n, p, t) = (d.n(), d.p(), d.t());
     if n == 0 || p == 0 || t == 0 { return false; }
@@ -420,10 +422,9 @@ impl Ctx {
         if kind != K_OLS && (0..d.p()).any(|j| { let q: f64 = d.x.iter().map(|row| row[j] * row[j]).sum(); q > 0.0 && q <= f64::EPSILON }) {
             t.push("tiny_column".into());
         }
-        // every coefficient (row) the solver can ever compute lies in the band 0 < |w_j| <= EPSILON that
-        // `abs_diff_ne!(w[j], 0)` takes for zero: started from w = 0, r = y, the coordinate minimisers
-        // soft(x_j.y, l1) / (|x_j|^2 + l2) of ALL non-skipped features are <= EPSILON in magnitude (and not all 0),
-        // so the residual is never updated and every later sweep recomputes the same values from r = y
+        // regression class of finding F52 (repaired): started from w = 0, r = y, the coordinate minimisers
+        // soft(x_j.y, l1) / (|x_j|^2 + l2) of ALL non-skipped features are <= EPSILON in magnitude (and not all 0) -
+        // coefficients the pre-repair guard `abs_diff_ne!(w[j], 0)` took for zero
         if kind != K_OLS && band_start(kind, d, h) { t.push("coef_band".into()); }
         for e in extra { t.push(e.to_string()); }
         t
@@ -671,8 +672,9 @@ fn main() {
         cx.emit_fit(if t == 1 { K_ENET } else { K_MTL }, &d, &h, &q, "tiny_column", true);
     }
 
-    // ---- stream H: targets of scale 1e-17 on correlated (offset) features: every coefficient is below
-    //      f64::EPSILON in magnitude, which `abs_diff_ne!(w[j], 0)` takes for zero ----
+    // ---- stream H (regression stream of finding F52): targets of scale 1e-17 on correlated (offset) features:
+    //      every coefficient is below f64::EPSILON in magnitude, which the pre-repair guard
+    //      `abs_diff_ne!(w[j], 0)` took for zero ----
     let nh = if thorough { 40 } else { 6 };
     for i in 0..nh {
         let mut r = rng.fork();
